@@ -99,6 +99,13 @@ var layoutSpecs = []layoutSpec{
 		st(3, "zone", "z2"),
 		st(4, "zone", "z3", "host", "h3", "engine", "tiflash"),
 	}},
+	6: {"no-zone", []storeSpec{ // stores without the first location label that differ on a later one
+		st(1, "zone", "z1", "host", "h1"),
+		st(2, "host", "h1"),
+		st(3, "host", "h2"),
+		st(4, "zone", "z1", "host", "h2"),
+		st(5, "zone", "z2"),
+	}},
 	5: {"four-plain", []storeSpec{
 		st(1, "zone", "z1", "host", "h1"),
 		st(2, "zone", "z1", "host", "h2"),
